@@ -4,7 +4,7 @@ From SV Require Import Lib.Base Gen.Consts.
 From SV Require Import Model.Seq32 Model.Assembler Model.TcpBuf Model.TcpTypes Model.Tcp Model.TcpNet.
 From SV Require Import Proofs.TcpSendBase Proofs.TcpLiveBase Proofs.TcpLiveProofs Proofs.TcpLiveMore Proofs.TcpLiveProgress.
 From SV Require Import Proofs.TcpNetBase.
-From SV Require Import Proofs.TcpProgressBase Proofs.TcpProgressFrame Proofs.TcpProgressCtl Proofs.TcpProgressRecv Proofs.TcpProgressSend Proofs.TcpProgressNet Proofs.TcpProgressData Proofs.TcpProgressAck Proofs.TcpProgressAll Proofs.TcpProgressSafe Proofs.TcpProgressHs Proofs.TcpProgressHsD Proofs.TcpProgressHsNet Proofs.TcpProgressHsInit Proofs.TcpProgressExample Proofs.TcpProgressWitness Proofs.TcpProgressSafeWitness.
+From SV Require Import Proofs.TcpProgressBase Proofs.TcpProgressFrame Proofs.TcpProgressCtl Proofs.TcpProgressRecv Proofs.TcpProgressSend Proofs.TcpProgressNet Proofs.TcpProgressData Proofs.TcpProgressAck Proofs.TcpProgressAll Proofs.TcpProgressSafe Proofs.TcpProgressHs Proofs.TcpProgressHsD Proofs.TcpProgressHsNet Proofs.TcpProgressHsInit Proofs.TcpProgressHsLive Proofs.TcpProgressExample Proofs.TcpProgressWitness Proofs.TcpProgressSafeWitness.
 From SV Require Import Props.C02liveHs.
 
 Check (C02live_listen_accepts_syn : forall cx s ip r s' rep tags,
@@ -90,3 +90,31 @@ Check (C02live_delivery_from_net_init_applies :
     start_ok 10000 ex_cfg_a ex_cfg_b st0 /\ net_run st0 wit_prefix = Ok st /\ net_run st wit_suffix = Ok st' /\
     exists p1 p2 st1, wit_suffix = p1 ++ p2 /\ net_run st p1 = Ok st1 /\ net_run st1 p2 = Ok st' /\
                       5 <= read_off (net_get st1 SB)).
+
+Check (C02live_syn_poll_now : forall cx s,
+  s_tuple s <> None -> (s_state s = SynSent \/ s_state s = SynReceived) ->
+  s_remote_last_seq s = s_local_seq_no s -> 52 < cx_ip_mtu cx ->
+  tcp_poll_at cx s = Ok PNow).
+
+Check (C02live_syn_dispatch_emits : forall cx s t s' res tags,
+  tcp_live_inv s -> (s_state s = SynSent \/ s_state s = SynReceived) -> s_timeout s = None ->
+  s_tuple s = Some t -> tu_local_addr t = cx_addr cx ->
+  s_remote_last_seq s = s_local_seq_no s -> 52 < cx_ip_mtu cx ->
+  tcp_dispatch cx s true = Ok (s', res, tags) -> exists p, res = DSent p).
+
+Check (C02live_handshake_run_safe : forall Dack ca cb st0, start_ok Dack ca cb st0 ->
+  forall evs pre st1 st,
+  net_run st0 pre = Ok st1 -> hs_inv (cx_isn (ep_cx (n_a st0))) Dack st1 -> opts_ok st1 ->
+  Forall (script_ev SA) evs -> net_run st1 evs = Ok st -> TcpNetInv.small st ->
+  run_all (HSR (cx_isn (ep_cx (n_a st0))) Dack) st1 evs).
+
+Check (C02live_handshake_phase_step : forall isn Dack Dt Da T0 dk fa st ev st',
+  0 <= Dt -> HSR isn Dack st -> HSR isn Dack st' -> Jh Dt Da T0 dk fa st -> fair_ev fa st ev -> net_step st ev = Ok st' ->
+  Qh (fa_after Dt Da fa ev st') st' \/ Jh Dt Da T0 dk (fa_after Dt Da fa ev st') st').
+
+Check (C02live_syn_eventually_established : forall Dt Da Dack ca cb st0 evs st',
+  start_ok Dack ca cb st0 -> fair_schedule Dt Da st0 evs ->
+  Forall (app_ev SA) evs -> net_run st0 evs = Ok st' -> TcpNetInv.small st' ->
+  net_now st0 SA + 2 * Dt < net_now st' SA ->
+  exists pre post st1, evs = pre ++ post /\ net_run st0 pre = Ok st1 /\ net_run st1 post = Ok st' /\
+                       s_state (net_sock st1 SA) = Established).
